@@ -335,6 +335,24 @@ static bool dispatch(const std::string& scn, const std::string& el, size_t p)
 	else if (scn == "seg") { if (n) scn_array<SegmentedArray<EN, kit::MM>, EN>(p); else scn_array<SegmentedArray<EC, kit::MM>, EC>(p); }
 	else if (scn == "hset") { if (n) scn_hset<HSetT<EN, HTd<EN>>, EN>(p); else scn_hset<HSetT<EC, HTd<EC>>, EC>(p); }
 	else if (scn == "hseto") { if (n) scn_hset<HSetT<EN, HTo<EN>>, EN>(p); else scn_hset<HSetT<EC, HTo<EC>>, EC>(p); }
+	else if (scn == "hsfirst" || scn == "hsfirsto")
+	{	// FIRST insertion into a set that has no bucket array: fresh, after Clear(true), re-created after a move (a moved-from set itself
+		// has a null crew and may only be destroyed or assigned to), after Reserve (pvAddGrow with hasBuckets == false)
+		bool open = (scn == "hsfirsto");
+		auto body = [&](auto* tag)
+		{
+			typedef typename std::remove_pointer<decltype(tag)>::type HS;
+			std::vector<EN> pool; pool.reserve(8);
+			G([&] { for (int i = 0; i < 6; ++i) pool.emplace_back(int64_t(i)); });
+			if (pool.size() < 6) return;
+			typename HS::HashTraits ht;
+			{ HS a(ht, kit::MM(1)); G([&] { a.Insert(pool[0]); }); G([&] { a.Insert(pool[1]); }); }
+			{ HS a(ht, kit::MM(1)); G([&] { a.Insert(pool[0]); }); a.Clear(true); G([&] { a.Insert(pool[2]); }); G([&] { a.Insert(pool[3]); }); }
+			{ HS a(ht, kit::MM(1)); G([&] { a.Insert(pool[0]); }); G([&] { HS b(std::move(a)); G([&] { a = HS(ht, kit::MM(1)); a.Insert(pool[4]); }); G([&] { b.Insert(pool[5]); }); }); }
+			{ HS a(ht, kit::MM(1)); G([&] { a.Reserve(p); }); G([&] { a.Insert(pool[1]); }); }
+		};
+		if (open) body(static_cast<HSetT<EN, HTo<EN>>*>(nullptr)); else body(static_cast<HSetT<EN, HTd<EN>>*>(nullptr));
+	}
 	else if (scn == "hset1") { if (n) scn_hset<HSetT<EN, HT1<EN>>, EN>(p); else scn_hset<HSetT<EC, HT1<EC>>, EC>(p); }
 	else
 #endif
@@ -356,6 +374,27 @@ static bool dispatch(const std::string& scn, const std::string& el, size_t p)
 		G([&] { TS c(s); while (c.GetCount() > 0) c.Remove(std::prev(c.GetEnd())); });
 		G([&] { s.Insert(pool[p + 1]); });
 		while (s.GetCount() > 0) s.Remove(s.GetBegin());
+	}
+	else if (scn == "tmergeb")
+	{	// fast merge (empty traits, equal managers, disjoint key ranges) AFTER the source has freed nodes (its pools hold cached
+		// free blocks), the source is refilled, the DESTINATION dies first, then the source is read and destroyed
+		typedef TreeSet<EN, TreeTraits<EN>, kit::MM> TS;        // default nodes: 8 blocks per pool buffer, 16 cached free blocks
+		std::vector<EN> pool; pool.reserve(400);
+		G([&] { for (size_t i = 0; i < 6 * p + 80; ++i) pool.emplace_back(int64_t(i)); });
+		if (pool.size() < 6 * p + 80) return true;
+		TS src(TS::TreeTraits(), kit::MM(1));
+		G([&] { for (size_t i = 0; i < 4 * p + 40; ++i) src.Insert(pool[i]); });
+		for (size_t i = 0; i < 3 * p + 30; ++i) G([&] { if (src.GetCount() > 2) src.Remove(src.GetBegin()); });   // frees nodes
+		{
+			TS dst(TS::TreeTraits(), kit::MM(1));
+			G([&] { for (size_t i = 5 * p + 50; i < 6 * p + 80; ++i) dst.Insert(pool[i]); });
+			G([&] { src.MergeTo(dst); });
+			G([&] { for (size_t i = 0; i < 2 * p + 20; ++i) src.Insert(pool[i]); });            // refill: takes cached blocks
+		}	// ~dst
+		int64_t sum = 0;
+		G([&] { for (const EN& e : src) sum += e.Value(); });
+		G([&] { src.Insert(pool[3 * p + 31]); });
+		while (src.GetCount() > 0) src.Remove(src.GetBegin());
 	}
 	else if (scn == "tmap") { if (n) scn_map<TreeMap<EN, EN, TTs<EN>, kit::MM>, EN, EN, TTs<EN>>(p); else scn_map<TreeMap<EC, EC, TTs<EC>, kit::MM>, EC, EC, TTs<EC>>(p); }
 	else if (scn == "pool")
